@@ -117,11 +117,18 @@ pub fn side_input_cases(rng: &mut Rng, sink: &mut CaseSink, n: usize, watchdog: 
         let mut body = vec![Op1::AddState, Op1::FilterNe(rng.range(2, 4)), Op1::SetKey(rng.range(5, 9)), js];
         if i % 3 == 0 { body.insert(1, Op1::Shuffle); }
         if i % 4 == 1 { body.push(Op1::MapAdd(1)); }
+        if i % 4 == 3 {
+            // the side input on the LEFT of the join and the loop state read in the block that the
+            // join starts: that block must wait for the state of the round like any other
+            let side = match pipe::random_join_side(rng) { Op1::JoinSide(_, _, s) | Op1::JoinSideL(_, _, s) => s, _ => vec![] };
+            body = vec![Op1::SetKey(9), Op1::JoinSideL(*rng.pick(&[JVar::Inner, JVar::Inner, JVar::Left]), *rng.pick(&[JLocal::Hash, JLocal::SortMerge]), side), Op1::AddState];
+        }
         let p = Pipe::Replay(Box::new(src), rng.range(2, 5), 1_000_000_000_000, body);
         let configs = vec![
             (Deploy::Local(1), Mode::Fixed(1024)),
             (Deploy::Local(rng.range(2, 6) as u64), pipe::random_mode(rng)),
             (Deploy::Remote(vec![1, 2]), pipe::random_mode(rng)),
+            (Deploy::Remote(vec![2, 2, 2]), *rng.pick(&[Mode::Single, Mode::Fixed(1), Mode::Adaptive(4, 5)])),
         ];
         emit(sink, &p, &configs, watchdog);
     }
